@@ -145,12 +145,15 @@ def make_bounded_replay(prop, obl, rec, text):
 
 
 def run_native_test(test, src=None, tier="quick", log=None, extra_env=None):
+    fresh = src is None
     if src is None:
         src, _ = vlib.snapshot("replay")
     env = {"RUSTFLAGS": "--cfg svgbob_verif", "CARGO_TARGET_DIR": vlib.native_target_dir(),
            "VERIF_TIER": tier}
     if extra_env:
         env.update(extra_env)
+    if fresh:
+        vlib.run(["cargo", "clean", "--offline", "-p", "svgbob"], cwd=src, env=env, timeout=300)
     cmd = ["cargo", "test", "--offline", "-q", "-p", "svgbob", "--lib", "--", test, "--exact",
            "--nocapture", "--test-threads", "1"]
     rc, text, wall = vlib.run(cmd, cwd=src, env=env, timeout=1800, out=log)
